@@ -22,7 +22,7 @@
 From Coq Require Import List String Arith Bool Lia.
 Import ListNotations.
 From MVGen Require Import JsGates_gen.
-From MV Require Import Js.PrintModel Js.PrintSpec Js.PrintGen Js.PrintProofs Js.PrintGroup Js.RewriteModel Js.RewriteSem Js.RewriteProofs Js.RewritePipe Js.RewritePipeProofs Js.StmtModel Js.StmtSem Js.StmtProofs Js.StmtPrint Js.StmtParse Js.StmtPrintProofs Js.NumLit Js.NumLitSpec Js.NumLitProofs.
+From MV Require Import Js.PrintModel Js.PrintSpec Js.PrintGen Js.PrintProofs Js.PrintGroup Js.RewriteModel Js.RewriteSem Js.RewriteProofs Js.RewritePipe Js.RewritePipeProofs Js.StmtModel Js.StmtSem Js.StmtProofs Js.StmtPrint Js.StmtParse Js.StmtPrintProofs Js.NumLit Js.NumLitSpec Js.NumLitProofs Js.StrLit Js.StrLitSpec.
 From MV Require Base.MvBytes Num.NumModel Num.NumSpec.
 From Coq Require Import ZArith.
 Local Open Scope string_scope.
@@ -329,3 +329,4 @@ Example numeric_literals_nonvacuous :
   hexadecimal_number [48; 120; 69; 48; 48; 48; 48; 48; 48; 48; 48; 48]%Z = [48; 120; 69; 48; 48; 48; 48; 48; 48; 48; 48; 48]%Z /\
   binary_number [48; 98; 49; 95; 48; 95; 49; 110]%Z = [53; 110]%Z.
 Proof. vm_compute. repeat split; reflexivity. Qed.
+
